@@ -493,7 +493,7 @@ def r4(R, m):
                 "column %s receives %s instead of %s[%s]" % (col, src(val), {"self.gv": "self.gv", "REAL": rn, "INT": inn}[base], sl))
         R.check(cfg.dominates(cgn, cfg.node_of(pyfacts.containing_stmt(c))), "C09.R4", REL, c.lineno, "%s.savegrains" % CLS, "put(%s) after compute_gv" % col,
                 "the column is written before this grain's g-vectors are recomputed (it gets the previous grain's)")
-        scan = tgt.value
+        scan = pyfacts.resolved(fn, tgt.value, 2, keep=("self",)) if isinstance(tgt.value, ast.Name) else tgt.value      # scan = self.scandata[fltname] named once
         R.check(isinstance(scan, ast.Subscript) and nows(src(scan.value)) == "self.scandata", "C09.R4", REL, c.lineno, "%s.savegrains" % CLS, src(tgt),
                 "the column written does not belong to the scan table")
     R.check(set(seen) == set(want), "C09.R4", REL, fn.lineno, "%s.savegrains" % CLS, "columns written: %s" % sorted(seen),
@@ -589,7 +589,22 @@ def r6(R, m):
     rets = [r for r in ast.walk(fn) if isinstance(r, ast.Return)]
     # every return hands back the working matrix, and comes after the fit (an early 'if quiet: return mat' before the report is the same)
     cfg6 = pyfacts.PyCFG(fn)
-    after_fit = all(any(cfg6.dominates(cfg6.node_of(pyfacts.containing_stmt(c)), cfg6.node_of(r)) for c in calls) for r in rets if cfg6.node_of(r) is not None)
+    def anchor(c):
+        """the statement that certainly runs when the fit runs: the call's statement, or the outermost loop around it that
+        iterates over range(<constant >= 1>) (two passes written as 'for _ in range(2)')"""
+        st_ = pyfacts.containing_stmt(c)
+        up = getattr(st_, "_parent", None)
+        best = st_
+        while up is not None and not isinstance(up, (ast.FunctionDef, ast.Lambda)):
+            if isinstance(up, ast.For) and isinstance(up.iter, ast.Call) and dotted(up.iter.func) == "range" and len(up.iter.args) == 1 \
+                    and (pyfacts.const_int(up.iter.args[0]) or 0) >= 1 and not up.orelse and not any(isinstance(x, ast.Break) for x in ast.walk(up)):
+                best = up
+            elif isinstance(up, (ast.For, ast.While, ast.If, ast.Try)):
+                break
+            up = getattr(up, "_parent", None)
+        return best
+    after_fit = all(any(cfg6.node_of(anchor(c)) is not None and cfg6.dominates(cfg6.node_of(anchor(c)), cfg6.node_of(r)) for c in calls)
+                    for r in rets if cfg6.node_of(r) is not None)
     R.check(len(rets) >= 1 and all(r.value is not None and nows(src(r.value)) == mat for r in rets) and after_fit, "C09.R6", REL, fn.lineno, "%s.refine" % CLS, "return %s" % mat,
             "the refined matrix is not what is returned")
     # the score is refreshed after the last symmetry projection? (second call after first projection) - count pattern
@@ -624,8 +639,9 @@ def r6(R, m):
     for r in rets:
         if "/" in src(r.value):
             n = cfg.node_of(r)
-            facts = [(nows(src(e)), pol) for e, pol in cfg.guards(n)]
-            R.check(("contribs>0", True) in facts and nows(src(r.value)).endswith("diffs/contribs"), "C09.R6", REL, r.lineno, "%s.gof" % CLS, src(r),
+            facts = pyfacts.guard_atoms(cfg.guards(n))      # 'if not contribs > 0: ...; return' before it counts as contribs > 0
+            R.check((("contribs>0", True) in facts or ("contribs<=0", False) in facts or ("0<contribs", True) in facts or ("contribs>=1", True) in facts)
+                    and nows(src(r.value)).endswith("diffs/contribs"), "C09.R6", REL, r.lineno, "%s.gof" % CLS, src(r),
                     "division by the number of contributing peaks is not guarded / not diffs/contribs")
     # refineubis
     ru = m.func("%s.refineubis" % CLS)
